@@ -48,6 +48,7 @@ fn id_chars() -> &'static [char] {
         }
         // 'à' 'Å' '†': the last UTF-8 byte (A0, 85) read as Latin-1 is white space
         v.extend(['é', 'ß', '中', '😀', '\u{7f}', '\u{200b}', 'ı', '\u{301}', 'à', 'Å', '†']);
+        v.extend(crate::gen::LOW_BYTE_SPECIAL);
         v
     })
 }
@@ -64,6 +65,7 @@ fn desc_chars() -> &'static [char] {
             }
         }
         v.extend(['é', '中', '😀', '\u{a0}', '\u{3000}', '\u{1}', '\u{1b}', '\u{7f}', '\u{2003}', '\u{feff}', 'à', 'Å', '†']);
+        v.extend(crate::gen::LOW_BYTE_SPECIAL);
         v
     })
 }
@@ -321,6 +323,9 @@ struct WriterCfg {
     flush: bool,
     /// explicit flush() after every record
     flush_each: bool,
+    /// ctor 2 only: the BufWriter handed to from_bufwriter already holds record 0, written into it
+    /// by the caller itself (unwrapped); the library writes the records after it
+    preload: bool,
 }
 
 const WCAPS: [usize; 14] = [8192, 0, 1, 2, 7, 64, 3, 16, 100, 1000, 4096, 32768, 65536, 8193];
@@ -362,6 +367,10 @@ fn gen_writer_cfg(w: &World, kind: Kind, recs: &[Rec], magic: Option<usize>) -> 
     let api = w.draw(4) as u8;
     let flush = w.chance(1, 2);
     let flush_each = w.chance(1, 5);
+    let preload = ctor == 2 && api != 2 && !recs.is_empty() && w.chance(1, 3);
+    if preload {
+        w.probe("bufwriter_handed_over_with_data_in_it");
+    }
     WriterCfg {
         ctor,
         cap,
@@ -370,6 +379,7 @@ fn gen_writer_cfg(w: &World, kind: Kind, recs: &[Rec], magic: Option<usize>) -> 
         api,
         flush,
         flush_each,
+        preload,
     }
 }
 
@@ -419,7 +429,7 @@ fn tile_buffer(w: &World, kind: Kind, rec: &mut Rec, cfg: &mut WriterCfg) {
 impl WriterCfg {
     /// the line wrap in force for record number j (the Display path never wraps)
     fn wrap_for(&self, j: usize) -> Option<usize> {
-        if self.api == 2 {
+        if self.api == 2 || self.preload && j == 0 {
             return None;
         }
         match self.wrap2 {
@@ -447,10 +457,19 @@ fn produce<S: Write>(kind: Kind, cfg: &WriterCfg, recs: &[Rec], sink: S) -> io::
             let mut wr = match cfg.ctor {
                 0 => fasta::Writer::new(sink),
                 1 => fasta::Writer::with_capacity(cfg.cap, sink),
-                _ => fasta::Writer::from_bufwriter(BufWriter::with_capacity(cfg.cap, sink)),
+                _ => {
+                    let mut bw = BufWriter::with_capacity(cfg.cap, sink);
+                    if cfg.preload {
+                        bw.write_all(&hand_written(kind, &recs[0]))?;
+                    }
+                    fasta::Writer::from_bufwriter(bw)
+                }
             };
             wr.set_linewrap(cfg.wrap);
             for (j, r) in recs.iter().enumerate() {
+                if cfg.preload && j == 0 {
+                    continue;
+                }
                 if cfg.wrap2.is_some() {
                     wr.set_linewrap(cfg.wrap_for(j));
                 }
@@ -458,6 +477,8 @@ fn produce<S: Write>(kind: Kind, cfg: &WriterCfg, recs: &[Rec], sink: S) -> io::
                     wr.write(&r.id, r.desc.as_deref(), &r.seq)?;
                 } else {
                     let rec = fasta::Record::with_attrs(&r.id, r.desc.as_deref(), &r.seq);
+                    // every other record goes through Clone first
+                    let rec = if j % 2 == 1 { rec.clone() } else { rec };
                     wr.write_record(&rec)?;
                 }
                 if cfg.flush_each {
@@ -484,13 +505,23 @@ fn produce<S: Write>(kind: Kind, cfg: &WriterCfg, recs: &[Rec], sink: S) -> io::
             let mut wr = match cfg.ctor {
                 0 => fastq::Writer::new(sink),
                 1 => fastq::Writer::with_capacity(cfg.cap, sink),
-                _ => fastq::Writer::from_bufwriter(BufWriter::with_capacity(cfg.cap, sink)),
+                _ => {
+                    let mut bw = BufWriter::with_capacity(cfg.cap, sink);
+                    if cfg.preload {
+                        bw.write_all(&hand_written(kind, &recs[0]))?;
+                    }
+                    fastq::Writer::from_bufwriter(bw)
+                }
             };
             for (j, r) in recs.iter().enumerate() {
+                if cfg.preload && j == 0 {
+                    continue;
+                }
                 if cfg.api == 0 || cfg.api == 3 && j % 2 == 0 {
                     wr.write(&r.id, r.desc.as_deref(), &r.seq, &r.qual)?;
                 } else {
                     let rec = fastq::Record::with_attrs(&r.id, r.desc.as_deref(), &r.seq, &r.qual);
+                    let rec = if j % 2 == 1 { rec.clone() } else { rec };
                     wr.write_record(&rec)?;
                 }
                 if cfg.flush_each {
@@ -503,6 +534,20 @@ fn produce<S: Write>(kind: Kind, cfg: &WriterCfg, recs: &[Rec], sink: S) -> io::
             Ok(())
         }
     }
+}
+
+/// Record 0 as a caller would write it into its own BufWriter before handing that to the library.
+fn hand_written(kind: Kind, r: &Rec) -> Vec<u8> {
+    let mut b = header_bytes(if kind == Kind::Fasta { b'>' } else { b'@' }, r);
+    b.push(b'\n');
+    b.extend_from_slice(&r.seq);
+    b.push(b'\n');
+    if kind == Kind::Fastq {
+        b.extend_from_slice(b"+\n");
+        b.extend_from_slice(&r.qual);
+        b.push(b'\n');
+    }
+    b
 }
 
 /// A plain sink that also remembers its length after each record (record boundaries).
@@ -856,7 +901,7 @@ fn consume_fasta<B: BufRead>(w: &World, reader: fasta::Reader<B>, api: Api, max_
             Some(item) => {
                 p.items += 1;
                 match item {
-                    Ok(r) => p.recs.push(from_fa(&r)),
+                    Ok(r) => p.recs.push(if p.items % 2 == 0 { from_fa(&r.clone()) } else { from_fa(&r) }),
                     Err(e) => p.errs.push((p.items - 1, is_eintr_io(&e), e.to_string())),
                 }
                 if p.items > max_items + w.eintr_total.get() as usize {
@@ -1736,6 +1781,7 @@ fn partitions(w: &W) -> Verdict {
         api: w.draw(3) as u8,
         flush: w.chance(1, 2),
         flush_each: w.chance(1, 4),
+        preload: false,
     };
     let out_len = reference_bytes(kind, &wcfg, &recs)?.len();
     if out_len >= 2 && out_len <= limit + 4 {
